@@ -49,14 +49,16 @@ func (v *Validator) IsValidOriginalDocument(payload []byte) error {
 	}
 
 	// Sidetree rule: The document must NOT have the id property
-	if didDoc.ID() != "" {
+	// (an id of any JSON type: ID() reads strings only)
+	if _, ok := didDoc[document.IDProperty]; ok {
 		return errors.New("document must NOT have the id property")
 	}
 
-	// Sidetree rule: must not have context
-	ctx := didDoc.Context()
-	if len(ctx) != 0 {
-		return errors.New("document must NOT have context")
+	// Sidetree rule: must not have context (a context may be a string, an object or a list)
+	if ctx, ok := didDoc[document.ContextProperty]; ok {
+		if list, isList := ctx.([]interface{}); !isList || len(list) != 0 {
+			return errors.New("document must NOT have context")
+		}
 	}
 
 	return nil
